@@ -2,6 +2,7 @@ package main
 
 import (
 	"fmt"
+	"go/constant"
 	"go/token"
 	"go/types"
 	"sort"
@@ -81,6 +82,7 @@ func ruleClientClosed(c *Ctx, dv *dev, rule string) {
 		idx     int // first instruction to execute
 		nilVals string
 		known   map[ssa.Value]bool
+		bools   map[ssa.Value]bool // boolean values whose truth is known on the path (`connecting = err != nil` with err known nil)
 	}
 	keyOf := func(m map[ssa.Value]bool) string {
 		var s []string
@@ -104,7 +106,7 @@ func ruleClientClosed(c *Ctx, dv *dev, rule string) {
 		}
 		// explore from the instruction after the acquiring call, state OPEN, errVal known nil
 		seen := map[string]bool{}
-		start := state{b: acq.Block(), known: map[ssa.Value]bool{errVal: true}}
+		start := state{b: acq.Block(), known: map[ssa.Value]bool{errVal: true}, bools: map[ssa.Value]bool{}}
 		for i, in := range acq.Block().Instrs {
 			if in == ssa.Instruction(acq) {
 				start.idx = i + 1
@@ -116,7 +118,7 @@ func ruleClientClosed(c *Ctx, dv *dev, rule string) {
 			st := work[len(work)-1]
 			work = work[:len(work)-1]
 			steps++
-			k := fmt.Sprintf("%d:%d:%s", st.b.Index, st.idx, keyOf(st.known))
+			k := fmt.Sprintf("%d:%d:%s|%s", st.b.Index, st.idx, keyOf(st.known), boolKey(st.bools))
 			if seen[k] {
 				continue
 			}
@@ -136,6 +138,24 @@ func ruleClientClosed(c *Ctx, dv *dev, rule string) {
 					break
 				}
 				switch x := in.(type) {
+				case *ssa.BinOp:
+					if x.Op == token.NEQ || x.Op == token.EQL {
+						var v ssa.Value
+						if isNil(x.Y) {
+							v = x.X
+						} else if isNil(x.X) {
+							v = x.Y
+						}
+						if v != nil && st.known[v] {
+							st.bools[x] = x.Op == token.EQL
+						}
+					}
+				case *ssa.UnOp:
+					if x.Op == token.NOT {
+						if bv, ok := st.bools[x.X]; ok {
+							st.bools[x] = !bv
+						}
+					}
 				case *ssa.Return:
 					where := c.P.Pos(x.Pos())
 					if where == "-" || where == "" {
@@ -167,11 +187,20 @@ func ruleClientClosed(c *Ctx, dv *dev, rule string) {
 							}
 						}
 					}
+					if bv, ok := st.bools[x.Cond]; ok {
+						if bv {
+							next = []int{0}
+						} else {
+							next = []int{1}
+						}
+					}
 					for _, si := range next {
-						work = append(work, enter(st.b, st.b.Succs[si], st.known))
+						ns := enter(st.b, st.b.Succs[si], st.known)
+						work = append(work, state{b: ns.b, idx: ns.idx, known: ns.known, bools: enterBools(st.b, st.b.Succs[si], st.bools)})
 					}
 				case *ssa.Jump:
-					work = append(work, enter(st.b, st.b.Succs[0], st.known))
+					ns := enter(st.b, st.b.Succs[0], st.known)
+					work = append(work, state{b: ns.b, idx: ns.idx, known: ns.known, bools: enterBools(st.b, st.b.Succs[0], st.bools)})
 				}
 			}
 		}
@@ -222,4 +251,47 @@ func enter(pred, succ *ssa.BasicBlock, known map[ssa.Value]bool) (st struct {
 		}
 	}
 	return st
+}
+
+func boolKey(m map[ssa.Value]bool) string {
+	var s []string
+	for v, b := range m {
+		s = append(s, fmt.Sprintf("%s=%v", v.Name(), b))
+	}
+	sort.Strings(s)
+	return strings.Join(s, ",")
+}
+
+// enterBools: boolean knowledge on entering succ from pred: phis of succ take the constant or the known truth of their
+// incoming value; knowledge about values defined in succ itself (a new iteration) is dropped.
+func enterBools(pred, succ *ssa.BasicBlock, bools map[ssa.Value]bool) map[ssa.Value]bool {
+	out := map[ssa.Value]bool{}
+	for v, b := range bools {
+		if in, ok := v.(ssa.Instruction); ok && in.Block() == succ {
+			continue
+		}
+		out[v] = b
+	}
+	pi := -1
+	for i, p := range succ.Preds {
+		if p == pred {
+			pi = i
+		}
+	}
+	for _, in := range succ.Instrs {
+		phi, ok := in.(*ssa.Phi)
+		if !ok {
+			break
+		}
+		if pi < 0 {
+			continue
+		}
+		e := phi.Edges[pi]
+		if k, isK := e.(*ssa.Const); isK && k.Value != nil && k.Value.Kind() == constant.Bool {
+			out[phi] = constant.BoolVal(k.Value)
+		} else if b, known := bools[e]; known {
+			out[phi] = b
+		}
+	}
+	return out
 }
